@@ -200,11 +200,6 @@ theorem catOf_cases (p : List String) :
   by_cases h1 : "constant" ∈ p <;> by_cases h2 : "parameter" ∈ p <;> by_cases h3 : "input" ∈ p <;>
     by_cases h4 : "state" ∈ p <;> simp [h1, h2, h3, h4]
 
-instance : DecidableEq Sym := fun a b => by
-  cases a; cases b
-  simp only [Sym.mk.injEq]
-  exact inferInstance
-
 theorem le_trans' : ∀ (a b c : Sym), decide (a.order ≤ b.order) = true → decide (b.order ≤ c.order) = true →
     decide (a.order ≤ c.order) = true := by
   intro a b c h1 h2
@@ -292,6 +287,51 @@ theorem cats_perm (l : List Sym) :
     have := (split_perm l).filter (fun s => !s.isEmpty)
     simpa [pick, List.filter_append] using this
   exact ((((h1.append h2).append (List.Perm.refl _)).append (List.Perm.refl _)).append (List.Perm.refl _)).trans h3
+
+theorem drop_delays (nd : Nat) (l : List String) : ((List.range nd).map delayName ++ l).drop nd = l := by
+  rw [List.drop_append_of_le_length (by simp)]; simp
+
+theorem take_delays (nd : Nat) (l : List String) :
+    ((List.range nd).map delayName ++ l).take nd = (List.range nd).map delayName := by
+  simp
+
+theorem exitClass_none_iff (nd : Nat) (syms : List Sym) :
+    exitClass nd syms = none ↔ ∃ s ∈ syms, s.isString = true ∧ s.isEmpty = false ∧ "output" ∈ s.prefixes ∧
+        (s.cat = .state ∨ s.cat = .alg) := by
+  have hm : ∀ s, s ∈ sortSyms syms ↔ s ∈ syms := fun s => (sortSyms_perm syms).mem_iff
+  unfold exitClass
+  by_cases hc : (outputSyms (sortSyms syms)).any (·.isString) = true
+  · simp only [hc, if_true, true_iff]
+    rw [List.any_eq_true] at hc
+    obtain ⟨s, hs, hstr⟩ := hc
+    simp only [outputSyms, List.mem_filter, List.mem_append, mem_pick_iff, hm, decide_eq_true_eq] at hs
+    rcases hs with ⟨h1 | h1, h2⟩
+    · exact ⟨s, h1.1, hstr, h1.2.2, h2, Or.inl h1.2.1⟩
+    · exact ⟨s, h1.1, hstr, h1.2.2, h2, Or.inr h1.2.1⟩
+  · simp only [hc, Bool.false_eq_true, if_false, reduceCtorEq, false_iff]
+    rintro ⟨s, h1, hstr, h3, h2, h4⟩
+    apply hc
+    rw [List.any_eq_true]
+    refine ⟨s, ?_, hstr⟩
+    simp only [outputSyms, List.mem_filter, List.mem_append, mem_pick_iff, hm, decide_eq_true_eq]
+    rcases h4 with h4 | h4
+    · exact ⟨Or.inl ⟨h1, h4, h3⟩, h2⟩
+    · exact ⟨Or.inr ⟨h1, h4, h3⟩, h2⟩
+
+/-- Without String-typed symbols the class exit cannot raise (used by the non-vacuity examples;
+    `List.mergeSort` does not reduce under `decide`). -/
+theorem exitClass_isSome (nd : Nat) (syms : List Sym) (h : ∀ s ∈ syms, s.isString = false) :
+    ∃ l, exitClass nd syms = some l := by
+  cases he : exitClass nd syms with
+  | some l => exact ⟨l, rfl⟩
+  | none =>
+    obtain ⟨s, hs, hstr, _⟩ := (exitClass_none_iff nd syms).mp he
+    rw [h s hs] at hstr; exact absurd hstr (by decide)
+
+theorem classify_isOk (syms syms' : List Sym) (t : Node) (ha : annotate syms t = some syms')
+    (h : ∀ s ∈ syms', s.isString = false) : ∃ l, classify syms t = .ok l := by
+  obtain ⟨l, hl⟩ := exitClass_isSome (countDelays t) syms' h
+  exact ⟨l, by simp [classify, ha, hl]⟩
 
 theorem derName_injective : Function.Injective derName := by
   intro a b h
